@@ -182,7 +182,7 @@ def run(ctx):
     ctx.sample({"input": show_bytes(mid["input"]), "spec_valid": mid["valid"], "spec_listing": [show_bytes(e["name"]) for e in mid["list"]]})
 
     # binding C
-    lim = 2500 if not ctx.thorough else 8000
+    lim = 1200 if not ctx.thorough else 8000
     sub = cases if len(cases) <= lim else [cases[i] for i in sorted(ctx.rng.sample(range(len(cases)), lim))]
     audit(ctx, sub, "gen")
 
